@@ -245,8 +245,6 @@ def _replay(L, case, out):
         if o.display_latex != want_l:
             bad("CloneKeeps.latex" if st["src"] else "latex",
                 f"step {k + 1} {st['op']}: LaTeX name {o.display_latex!r}, model {want_l!r}")
-        if not m["explicitD"] and kind != "quantity" and name == m["display"]:
-            pass
         # a display name that was given must never become the internal (SymPy) name
         if m["explicitD"] and name == m["display"]:
             bad("NoAlias", f"step {k + 1}: the display name {name!r} is used as the internal name")
